@@ -69,6 +69,9 @@ func fileSafe(s string) string {
 }
 
 func runOne(ctx context.Context, sd solverDef, file string, to time.Duration) (string, string) {
+	if to < 500*time.Millisecond {
+		return "timeout", "budget exhausted"
+	}
 	argv := sd.argv(file, to)
 	cctx, cancel := context.WithTimeout(ctx, to+2*time.Second)
 	defer cancel()
@@ -121,6 +124,8 @@ func solve(o *Obligation, cfg *SolverCfg) {
 		return
 	}
 	start := time.Now()
+	// overall budget of one obligation in one round: all stages together
+	deadline := start.Add(6 * cfg.Timeout)
 	// stage 1: z3-new alone, short
 	st1 := 2 * time.Second
 	if cfg.Timeout < st1 {
@@ -134,88 +139,35 @@ func solve(o *Obligation, cfg *SolverCfg) {
 		if res2 == "sat" || res2 == "unsat" {
 			res, out, solver = res2, out2, solvers[1].name
 		}
-	} else if res != "sat" && res != "unsat" {
-		// stage 2: race all three
-		ctx, cancel := context.WithCancel(context.Background())
-		type r struct{ res, out, name string }
-		ch := make(chan r, len(solvers))
-		for _, sd := range solvers {
-			go func(sd solverDef) {
-				a, b := runOne(ctx, sd, file, cfg.Timeout)
-				ch <- r{a, b, sd.name}
-			}(sd)
-		}
-		var outs []string
-		for i := 0; i < len(solvers); i++ {
-			x := <-ch
-			if x.res == "sat" || x.res == "unsat" {
-				res, out, solver = x.res, x.out, x.name
-				break
-			}
-			outs = append(outs, x.name+": "+x.res+" "+firstLines(x.out, 3))
-			res, solver = x.res, "none"
-			out = strings.Join(outs, "\n")
-		}
-		cancel()
 	}
-	if res != "sat" && res != "unsat" && o.Expect == "unsat" && o.Kind != "cover" {
-		// (relevance slicing first: cheap when it works, see stage 5)
-		if name, ok := sliceDecide(text, file, cfg.Timeout); ok {
-			res, out, solver = "unsat", "", name
+	if o.Kind != "cover" && res != "sat" && res != "unsat" {
+		// stage 2: portfolio (see portfolio): the full query on all three solvers, the query with
+		// redundant instances switched off, and relevance-sliced queries, side by side
+		var used string
+		// (first a short plain race: most obligations that survive stage 1 end here, and the
+		// extra variants cost processes)
+		short := 6 * time.Second
+		if cfg.Timeout > short {
+			res, out, solver, used = portfolio(text, file, capTo(short, deadline), false)
+		}
+		if res != "sat" && res != "unsat" {
+			res, out, solver, used = portfolio(text, file, capTo(cfg.Timeout, deadline), o.Expect == "unsat")
+		}
+		if res == "sat" && used != "" {
+			text = used
 		}
 	}
 	if res != "sat" && res != "unsat" && o.Expect == "unsat" && o.Kind != "cover" {
 		// stage 3: a conjunctive goal is decided conjunct by conjunct. reach && !(A && B) is
 		// unsatisfiable iff reach && !A and reach && !B both are; a model of either part is a
 		// model of the whole.
-		if r3, out3, name3, ok := solveSplit(o, cfg, file); ok {
+		if r3, out3, name3, ok := solveSplit(o, cfg, file, deadline); ok {
 			res, out, solver = r3, out3, name3
 			if res == "sat" {
 				if b, err := os.ReadFile(file); err == nil {
 					text = string(b)
 				}
 			}
-		}
-	}
-	if res != "sat" && res != "unsat" && o.Expect == "unsat" && o.Kind != "cover" && strings.Contains(text, "(hint") {
-		// stage 4: the same query with the redundant quantifier instances switched off (they are
-		// consequences of the quantified formulas they accompany, so this is an equivalent query;
-		// they help most proofs and get in the way of some)
-		t2 := strings.Replace(text, "(define-fun hint ((b Bool)) Bool b)", "(define-fun hint ((b Bool)) Bool true)", 1)
-		t2 = strings.Replace(t2, "(define-fun hinte ((b Bool)) Bool b)", "(define-fun hinte ((b Bool)) Bool false)", 1)
-		f2 := strings.TrimSuffix(file, ".smt2") + ".noinst.smt2"
-		os.WriteFile(f2, []byte(t2), 0o644)
-		ctx, cancel := context.WithCancel(context.Background())
-		type r struct{ res, out, name string }
-		ch := make(chan r, len(solvers))
-		for _, sd := range solvers {
-			go func(sd solverDef) {
-				a, b := runOne(ctx, sd, f2, cfg.Timeout)
-				ch <- r{a, b, sd.name}
-			}(sd)
-		}
-		for i := 0; i < len(solvers); i++ {
-			x := <-ch
-			if x.res == "sat" || x.res == "unsat" {
-				res, out, solver = x.res, x.out, x.name
-				if res == "sat" {
-					text = t2
-				}
-				break
-			}
-		}
-		cancel()
-		if res == "unsat" {
-			os.Remove(f2)
-		}
-	}
-	if res != "sat" && res != "unsat" && o.Expect == "unsat" && o.Kind != "cover" {
-		// stage 5: relevance slicing. Assertions are dropped unless they share a data symbol
-		// with the goal within a few rounds (definitions of named terms are pulled in on
-		// demand). Dropping assumptions only weakens the query, so "unsat" carries over to the
-		// full query; any other answer of a sliced query is ignored.
-		if name, ok := sliceDecide(text, file, cfg.Timeout); ok {
-			res, out, solver = "unsat", "", name
 		}
 	}
 	o.Seconds = time.Since(start).Seconds()
@@ -238,9 +190,103 @@ func solve(o *Obligation, cfg *SolverCfg) {
 	}
 }
 
+// portfolio runs, side by side and until the first usable answer:
+//   - the full query on z3-new, z3 4.8.12 and cvc5 (sat and unsat count);
+//   - the query with the redundant quantifier instances switched off (they are consequences of
+//     the quantified formulas they accompany: an equivalent query; sat and unsat count);
+//   - relevance-sliced queries of depth 1 and 2 (fewer assumptions: only unsat counts).
+// Returns the result, solver output, a label for the evidence and, for a sat answer, the text
+// of the query that produced it.
+func portfolio(text, file string, to time.Duration, wantUnsat bool) (res, out, label, used string) {
+	type variant struct {
+		file, text, tag string
+		sat            bool
+		solvers        []int
+	}
+	vs := []variant{{file, text, "", true, []int{0, 1, 2}}}
+	base := strings.TrimSuffix(file, ".smt2")
+	if wantUnsat {
+		if strings.Contains(text, "(hint") {
+			t2 := strings.Replace(text, "(define-fun hint ((b Bool)) Bool b)", "(define-fun hint ((b Bool)) Bool true)", 1)
+			t2 = strings.Replace(t2, "(define-fun hinte ((b Bool)) Bool b)", "(define-fun hinte ((b Bool)) Bool false)", 1)
+			vs = append(vs, variant{base + ".noinst.smt2", t2, "noinst:", true, []int{0, 1}})
+		}
+		if len(text) > 40000 {
+			if s1 := sliceQuery(text, 1); s1 != "" {
+				vs = append(vs, variant{base + ".slice1.smt2", s1, "slice(1):", false, []int{0, 2}})
+				if s2 := sliceQuery(text, 2); s2 != "" && len(s2) != len(s1) {
+					vs = append(vs, variant{base + ".slice2.smt2", s2, "slice(2):", false, []int{0}})
+				}
+			}
+		}
+	}
+	ctx, cancel := context.WithCancel(context.Background())
+	defer cancel()
+	type r struct {
+		res, out, name string
+		v              int
+	}
+	n := 0
+	ch := make(chan r, 16)
+	for vi, v := range vs {
+		if vi > 0 {
+			os.WriteFile(v.file, []byte(v.text), 0o644)
+		}
+		for _, si := range v.solvers {
+			n++
+			go func(vi int, f string, sd solverDef) {
+				a, b := runOne(ctx, sd, f, to)
+				ch <- r{a, b, sd.name, vi}
+			}(vi, v.file, solvers[si])
+		}
+	}
+	var outs []string
+	res, label = "timeout", "none"
+	for i := 0; i < n; i++ {
+		x := <-ch
+		v := vs[x.v]
+		if x.res == "unsat" || (x.res == "sat" && v.sat) {
+			res, out, label = x.res, x.out, v.tag+x.name
+			if x.res == "sat" {
+				used = v.text
+			}
+			break
+		}
+		if x.v == 0 {
+			outs = append(outs, x.name+": "+x.res+" "+firstLines(x.out, 3))
+			if x.res != "sat" {
+				res = x.res
+			}
+		}
+	}
+	cancel()
+	for _, v := range vs[1:] {
+		os.Remove(v.file)
+	}
+	if res != "sat" && res != "unsat" {
+		out = strings.Join(outs, "\n")
+	}
+	return
+}
+
+// capTo limits a solver timeout by what is left of an obligation's overall budget.
+func capTo(to time.Duration, deadline time.Time) time.Duration {
+	if r := time.Until(deadline); r < to {
+		to = r
+	}
+	if to < 0 {
+		to = 0
+	}
+	return to
+}
+
 // sliceDecide tries relevance-sliced versions of a query (see sliceQuery); only "unsat" counts.
-func sliceDecide(text, file string, to time.Duration) (string, bool) {
+func sliceDecide(text, file string, to time.Duration, deadline time.Time) (string, bool) {
 	for _, depth := range []int{1, 2, 3} {
+		to := capTo(to, deadline)
+		if to < time.Second {
+			return "", false
+		}
 		st := sliceQuery(text, depth)
 		if st == "" {
 			return "", false
@@ -376,7 +422,7 @@ func sexprArgs(s string) []string {
 	return out
 }
 
-func solveSplit(o *Obligation, cfg *SolverCfg, file string) (res, out, solver string, ok bool) {
+func solveSplit(o *Obligation, cfg *SolverCfg, file string, deadline time.Time) (res, out, solver string, ok bool) {
 	reach, parts := splitGoal(o.Goal)
 	if parts == nil {
 		return
@@ -389,6 +435,9 @@ func solveSplit(o *Obligation, cfg *SolverCfg, file string) (res, out, solver st
 	}
 	used := map[string]bool{}
 	for i, p := range parts {
+		if time.Until(deadline) < time.Second {
+			return
+		}
 		pf := fmt.Sprintf("%s.part%d.smt2", strings.TrimSuffix(file, ".smt2"), i)
 		// conjuncts already decided may be used for the later ones: A && (A => B) gives A && B
 		var earlier strings.Builder
@@ -404,29 +453,8 @@ func solveSplit(o *Obligation, cfg *SolverCfg, file string) (res, out, solver st
 		r, ro = runOne(context.Background(), solvers[0], pf, st1)
 		name = solvers[0].name
 		if r != "sat" && r != "unsat" {
-			ctx, cancel := context.WithCancel(context.Background())
-			type rr struct{ res, out, name string }
-			ch := make(chan rr, len(solvers))
-			for _, sd := range solvers {
-				go func(sd solverDef) {
-					a, b := runOne(ctx, sd, pf, cfg.Timeout)
-					ch <- rr{a, b, sd.name}
-				}(sd)
-			}
-			for j := 0; j < len(solvers); j++ {
-				x := <-ch
-				if x.res == "sat" || x.res == "unsat" {
-					r, ro, name = x.res, x.out, x.name
-					break
-				}
-			}
-			cancel()
-		}
-		if r != "sat" && r != "unsat" {
 			if b, err := os.ReadFile(pf); err == nil {
-				if nm, ok := sliceDecide(string(b), pf, cfg.Timeout); ok {
-					r, name = "unsat", nm
-				}
+				r, ro, name, _ = portfolio(string(b), pf, capTo(cfg.Timeout, deadline), true)
 			}
 		}
 		switch r {
